@@ -47,6 +47,30 @@ static int runb(int argc, tok_t *a, out_t *o, fb_t f) {
 }
 #define OPB(fn) static int op_##fn(int argc, tok_t *a, out_t *o) { return runb(argc, a, o, mpz_##fn); }
 OPB(mul_2exp) OPB(tdiv_q_2exp) OPB(cdiv_q_2exp) OPB(fdiv_q_2exp)
+/* alias_<fn> <q> <n> <d> <v0..v3>: mpz_<fn> (var q, var n, d); output: return value, then the four variables */
+typedef mpir_ui (*fu_t)(mpz_ptr, mpz_srcptr, mpir_ui);
+static int runu(int argc, tok_t *a, out_t *o, fu_t f) {
+  if (argc != 7) return -1;
+  for (int i = 0; i < 7; i++) if (a[i].kind != T_NUM) return -1;
+  long w = tok_long(&a[0]), u = tok_long(&a[1]);
+  if (w < 0 || w > 3 || u < 0 || u > 3 || a[2].neg || a[2].n > 1) return -1;
+  unsigned long d = tok_ulong(&a[2]);
+  mpz_t v[4]; mp_limb_t *p0[4];
+  for (int i = 0; i < 4; i++) { mpz_init(v[i]); tok_mpz(v[i], &a[3 + i]); p0[i] = v[i]->_mp_d; }
+  mpir_ui ret = 0;
+  int e = GUARD(ret = f(v[w], v[u], d));
+  if (e) out_err(o, "div0");
+  else {
+    out_ulong(o, ret);
+    for (int i = 0; i < 4; i++) {
+      out_mpz(o, v[i]); out_long(o, v[i]->_mp_alloc); out_long(o, v[i]->_mp_d != p0[i]);
+    }
+  }
+  for (int i = 0; i < 4; i++) mpz_clear(v[i]);
+  return 0;
+}
+#define OPU(fn) static int op_##fn(int argc, tok_t *a, out_t *o) { return runu(argc, a, o, mpz_##fn); }
+OPU(tdiv_q_ui) OPU(fdiv_q_ui) OPU(cdiv_q_ui)
 #define OP4(fn) static int op_##fn(int argc, tok_t *a, out_t *o) { return run(argc, a, o, 0, mpz_##fn); }
 #define OP3(fn) static int op_##fn(int argc, tok_t *a, out_t *o) { return run(argc, a, o, mpz_##fn, 0); }
 OP4(tdiv_qr) OP4(fdiv_qr) OP4(cdiv_qr)
@@ -89,6 +113,7 @@ const opdef_t ops_alias[] = {
   {"alias_tdiv_q", op_tdiv_q}, {"alias_tdiv_r", op_tdiv_r}, {"alias_fdiv_q", op_fdiv_q}, {"alias_fdiv_r", op_fdiv_r},
   {"alias_cdiv_q", op_cdiv_q}, {"alias_cdiv_r", op_cdiv_r}, {"alias_mod", op_mod},
   {"alias_and", op_and}, {"alias_ior", op_ior}, {"alias_xor", op_xor}, {"alias_com", op_com}, {"alias_neg", op_neg}, {"alias_abs", op_abs}, {"alias_set", op_set},   /* alias_com w u _ _ … */
+  {"alias_tdiv_q_ui", op_tdiv_q_ui}, {"alias_fdiv_q_ui", op_fdiv_q_ui}, {"alias_cdiv_q_ui", op_cdiv_q_ui},
   {"alias_mul_2exp", op_mul_2exp}, {"alias_tdiv_q_2exp", op_tdiv_q_2exp},
   {"alias_cdiv_q_2exp", op_cdiv_q_2exp}, {"alias_fdiv_q_2exp", op_fdiv_q_2exp},
   {"alias_divexact", op_divexact},      /* the generator keeps to the documented domain: den != 0 and den | num */
